@@ -161,8 +161,14 @@ def run(prog: Program, res: Result, tier: str) -> None:
                     instance=inst)
         inst = f"Change.{m}: excluded from the plain bond section"
         du = DefUse(w.node)
-        ex_dep = " ".join(norm(d, 300) for d in du.dep_nodes(excl)) if excl \
-            is not None else ""
+        ex_dep = ""
+        if excl is not None:
+            # one level of definitions of the names used in the filter
+            # (flow-insensitive closures would drag in unrelated loops)
+            for nm in {x.id for x in ast.walk(excl) if isinstance(x, ast.Name)}:
+                for d in du.defs.get(nm, ()):
+                    if isinstance(d, ast.Call):
+                        ex_dep += " " + norm(d, 300)
         if excl is not None and f"get_{role}_bonds()" in ex_dep and \
                 " not in " in norm(excl):
             res.ok("J-ENUM", inst, w.loc(excl))
@@ -290,6 +296,19 @@ def run(prog: Program, res: Result, tier: str) -> None:
                 res.bad("J-PAYLOAD", f"writer filter {norm(node.test)}",
                         w.loc(node), f"{inst} drops descriptors (e.g. parity "
                         "None / 0)", instance=inst)
+    for node in ast.walk(w.node):
+        if isinstance(node, (ast.Continue, ast.Break)):
+            guards = [a for a in ancestors(node) if isinstance(a, ast.If)]
+            loops = [a for a in ancestors(node) if isinstance(a, ast.For)]
+            if loops and any("stereo" in norm(l.iter) for l in loops):
+                t = norm(guards[0].test) if guards else "unconditionally"
+                inst = f"writer keeps every descriptor: skip `{t}`"
+                if t in ("stereo is None",):
+                    res.ok("J-PAYLOAD", inst, w.loc(node))
+                else:
+                    res.bad("J-PAYLOAD", f"writer skip {t}", w.loc(node),
+                            f"{inst}: descriptors are left out of the JSON "
+                            "document", instance=inst)
     # -- coverage -------------------------------------------------------------
     wants_w = {"graph.atoms": "atoms", "graph.atom_types": "elements",
                "graph.bonds": "bonds", "graph.atom_stereo.items()": "atom stereo",
